@@ -114,12 +114,17 @@ def apply_edit(kind, obj, rng):
                 return None
             i = rng.randrange(n)
             missing = all(np.isnan(np.asarray(getattr(it, a))[i]).all() for a in attrs)
-            how = "fill" if missing else rng.choice(["blank", "poke", "poke", "replace-array"])
+            how = "fill" if missing else rng.choice(["blank", "poke", "poke", "replace-array", "nudge"])
             flip = rng.choice([None, None, "<f8", "<f4"])
             for a in attrs:
                 arr = getattr(it, a)
                 row = arr[i]
-                if how == "blank":
+                if how == "nudge":
+                    # the smallest possible change: every component moves to the NEXT float32 (far inside any tolerance)
+                    cur = np.asarray(arr[i], dtype="<f4")
+                    nxt = np.nextafter(cur, np.float32(np.inf), dtype="<f4")
+                    _w(it, a, i, np.where(np.isfinite(nxt), nxt, cur) if np.ndim(row) else (nxt if np.isfinite(nxt) else cur))
+                elif how == "blank":
                     _w(it, a, i, np.nan)
                 elif how == "replace-array":
                     # a NEW array object, now and then of the other float width (float32 <-> float64: both are accepted)
